@@ -91,28 +91,37 @@ Proof. exact linear_width1_step. Qed.
 
 (** * 3. Output range and monotonicity (LINEAR and LINEAR_EXACT)
 
-    Hypothesis [voi_okb voi = true] (decidable, exact arithmetic): the computed window
-    bounds c - 0.5 -/+ (w-1)/2 (resp. c -/+ w/2) are finite and not rounded AWAY from the
-    window, and the computed half width is at most half the width. It holds whenever these
-    few operations are exact (integer / dyadic centres and widths of moderate size), for
-    every degenerate width, and it is exactly what fails in the known finding
-    WindowBoundsRoundedOutward ([C22_window_range_refuted]). *)
+    Hypothesis [voi_ok voi]: the computed window bounds c - 0.5 -/+ (w-1)/2 (resp. c -/+ w/2)
+    are finite and not rounded AWAY from the window, and the computed half width is at most
+    half the width ([ramp_ok] in Proofs/LutFloatP.v, stated over the reals). It holds whenever
+    these few operations are exact (integer / dyadic centres and widths of moderate size); it is
+    implied by the decidable test [voi_okb] (exact integer arithmetic, evaluate it with
+    vm_compute), and it holds for every degenerate width (clamped to 1, resp. 0) with a finite
+    centre. It is exactly what fails in the known finding WindowBoundsRoundedOutward
+    ([C22_window_range_refuted]). *)
+Theorem C22_voi_okb_sound : forall voi, voi_okb voi = true -> voi_ok voi.
+Proof. exact voi_okb_sound. Qed.
+
+Theorem C22_voi_ok_degenerate : forall wc,
+  (ffin (wc - 0.5)%float -> voi_ok {| wl_fun := Linear; wl_width := 1; wl_center := wc |}) /\
+  (ffin wc -> voi_ok {| wl_fun := LinearExact; wl_width := 0; wl_center := wc |}).
+Proof. intros wc. split; intros H; unfold voi_ok; cbn [wl_fun wl_width wl_center]; [now apply lin_ok_width1 | now apply exact_ok_width0]. Qed.
 
 (** f64 level: for every finite input the output is finite and within [0, y_max] ... *)
 Theorem C22_window_range_f64 : forall fexp voi ymax v,
-  voi_okb voi = true -> ffin ymax -> (0 <= fR ymax)%R -> ffin v ->
+  voi_ok voi -> ffin ymax -> (0 <= fR ymax)%R -> ffin v ->
   ffin (wl_apply fexp voi v ymax) /\ (0 <= fR (wl_apply fexp voi v ymax) <= fR ymax)%R.
-Proof. intros fexp voi ymax v OK Fy Py Fv. exact (window_range fexp voi ymax (voi_okb_sound _ OK) Fy Py v Fv). Qed.
+Proof. intros fexp voi ymax v OK Fy Py Fv. exact (window_range fexp voi ymax OK Fy Py v Fv). Qed.
 
 (** ... and never decreases when the input increases. *)
 Theorem C22_window_monotone_f64 : forall fexp voi ymax v1 v2,
-  voi_okb voi = true -> ffin ymax -> (0 <= fR ymax)%R -> ffin v1 -> ffin v2 -> (fR v1 <= fR v2)%R ->
+  voi_ok voi -> ffin ymax -> (0 <= fR ymax)%R -> ffin v1 -> ffin v2 -> (fR v1 <= fR v2)%R ->
   (fR (wl_apply fexp voi v1 ymax) <= fR (wl_apply fexp voi v2 ymax))%R.
-Proof. intros fexp voi ymax v1 v2 OK Fy Py. exact (window_mono fexp voi ymax (voi_okb_sound _ OK) Fy Py v1 v2). Qed.
+Proof. intros fexp voi ymax v1 v2 OK Fy Py. exact (window_mono fexp voi ymax OK Fy Py v1 v2). Qed.
 
 (** LUT entries, rescale + window: every entry is within [0, y_max] ... *)
 Theorem C22_window_range : forall fexp bits signed r voi t l s,
-  (1 <= bits <= 16)%N -> voi_okb voi = true ->
+  (1 <= bits <= 16)%N -> voi_ok voi ->
   new_rescale_and_window fexp bits signed r voi t = Ok l ->
   ffin (rescale_apply r (z2f (stored_value bits signed s))) ->
   (0 <= lut_get l s <= y_max_Z bits)%Z.
@@ -120,7 +129,7 @@ Proof. intros fexp bits signed r voi t l s Hb OK. exact (rw_range fexp bits sign
 
 (** ... and for a non-negative slope the output never decreases as the stored value increases. *)
 Theorem C22_monotone : forall fexp bits signed r voi t l s1 s2,
-  (1 <= bits <= 16)%N -> voi_okb voi = true ->
+  (1 <= bits <= 16)%N -> voi_ok voi ->
   new_rescale_and_window fexp bits signed r voi t = Ok l ->
   (0 <= fR (slope r))%R ->
   ffin (rescale_apply r (z2f (stored_value bits signed s1))) ->
@@ -131,7 +140,7 @@ Proof. intros fexp bits signed r voi t l s1 s2 Hb OK. exact (rw_mono fexp bits s
 
 (** the same for the other window constructors *)
 Theorem C22_window_only : forall fexp bits signed voi t l,
-  (1 <= bits <= 16)%N -> voi_okb voi = true ->
+  (1 <= bits <= 16)%N -> voi_ok voi ->
   new_window fexp bits signed voi t = Ok l ->
   (forall s, (0 <= lut_get l s <= y_max_Z bits)%Z) /\
   (forall s1 s2, (stored_value bits signed s1 <= stored_value bits signed s2)%Z -> (lut_get l s1 <= lut_get l s2)%Z).
@@ -142,7 +151,7 @@ Proof.
 Qed.
 
 Theorem C22_window_8bit : forall fexp bits signed r voi l,
-  (1 <= bits <= 16)%N -> voi_okb voi = true ->
+  (1 <= bits <= 16)%N -> voi_ok voi ->
   new_rescale_and_window_8bit fexp bits signed r voi = Ok l ->
   (forall s, ffin (rescale_apply r (z2f (stored_value bits signed s))) -> (0 <= lut_get l s <= 255)%Z) /\
   (forall s1 s2, (0 <= fR (slope r))%R ->
@@ -156,7 +165,7 @@ Proof.
 Qed.
 
 Theorem C22_window_only_8bit : forall fexp bits signed voi l,
-  (1 <= bits <= 16)%N -> voi_okb voi = true ->
+  (1 <= bits <= 16)%N -> voi_ok voi ->
   new_window_8bit fexp bits signed voi = Ok l ->
   (forall s, (0 <= lut_get l s <= 255)%Z) /\
   (forall s1 s2, (stored_value bits signed s1 <= stored_value bits signed s2)%Z -> (lut_get l s1 <= lut_get l s2)%Z).
@@ -197,6 +206,15 @@ Proof.
     [|vm_compute in E; discriminate..].
   exists l. split; [reflexivity|]. split; [|reflexivity].
   vm_compute in E. inversion E. vm_compute. reflexivity.
+Qed.
+
+(** ... hence these parameters do not satisfy [voi_ok]: the hypothesis is not vacuous-by-strength. *)
+Theorem C22_refuted_not_ok : ~ voi_ok refuting_voi.
+Proof.
+  intros OK. destruct C22_window_range_refuted as (_ & l & Hl & Hget & Hy).
+  assert (F : ffin (rescale_apply refuting_rescale (z2f (stored_value 8 false 3)))) by (apply ffin_SF; vm_compute; reflexivity).
+  pose proof (C22_window_range no_exp 8 false refuting_rescale refuting_voi TU16 l 3 ltac:(lia) OK Hl F) as H.
+  rewrite Hget, Hy in H. lia.
 Qed.
 
 (** * 4. SIGMOID (partial): range and monotonicity only, [exp] abstract.
@@ -250,12 +268,12 @@ Check C22_rescale_exact : forall bits signed r t l s,
   new_rescale bits signed r t = Ok l ->
   cast t (F_rescale (slope r) (intercept r) (z2f (stored_value bits signed s))) = Some (lut_get l s).
 Check C22_window_range : forall fexp bits signed r voi t l s,
-  (1 <= bits <= 16)%N -> voi_okb voi = true ->
+  (1 <= bits <= 16)%N -> voi_ok voi ->
   new_rescale_and_window fexp bits signed r voi t = Ok l ->
   ffin (rescale_apply r (z2f (stored_value bits signed s))) ->
   (0 <= lut_get l s <= y_max_Z bits)%Z.
 Check C22_monotone : forall fexp bits signed r voi t l s1 s2,
-  (1 <= bits <= 16)%N -> voi_okb voi = true ->
+  (1 <= bits <= 16)%N -> voi_ok voi ->
   new_rescale_and_window fexp bits signed r voi t = Ok l ->
   (0 <= fR (slope r))%R ->
   ffin (rescale_apply r (z2f (stored_value bits signed s1))) ->
@@ -270,6 +288,8 @@ Print Assumptions C22_rescale_exact.
 Print Assumptions C22_window_exact.
 Print Assumptions C22_width_clamp_linear.
 Print Assumptions C22_width1_step.
+Print Assumptions C22_voi_okb_sound.
+Print Assumptions C22_voi_ok_degenerate.
 Print Assumptions C22_window_range_f64.
 Print Assumptions C22_window_monotone_f64.
 Print Assumptions C22_window_range.
@@ -280,4 +300,5 @@ Print Assumptions C22_window_only_8bit.
 Print Assumptions C22_rescale_monotone.
 Print Assumptions C22_rescale_finite.
 Print Assumptions C22_window_range_refuted.
+Print Assumptions C22_refuted_not_ok.
 Print Assumptions C22_sigmoid_partial.
